@@ -4,7 +4,7 @@
    clastic/middleware/stats.py (Gen/ReservoirGen.v). *)
 From Coq Require Import List ZArith String.
 Import ListNotations.
-From ClasticV Require Import Base.PyList Base.Py Gen.ReservoirGen Model.Stats Proofs.StatsProofs.
+From ClasticV Require Import Gen.MoreShapes Base.PyList Base.Py Gen.ReservoirGen Model.Stats Proofs.StatsProofs.
 Local Open Scope Z_scope.
 
 (* For every capacity >= 0 and every sequence of add / resize(n>=0) operations,
@@ -53,3 +53,64 @@ Example C19_example :
           RAdd 13 0; RAdd 14 9; RAdd 15 10]
   = Ok (mk_rstate 10 [1; 4; 6; 7; 8; 9; 10; 11; 12; 14] 15).
 Proof. vm_compute. reflexivity. Qed.
+
+Local Open Scope string_scope.
+Local Open Scope list_scope.
+(* obligation on the source: the control-flow skeletons of StatsMiddleware, RouteStatReservoir and the report functions (Reservoir.add/resize are TRANSLATED in Gen/ReservoirGen.v), regenerated from the source on every run.  The model is a
+   hand transcription of exactly these statements: any edit re-opens the correspondence question (the check then searches
+   for a failing input and reports what it finds) *)
+Theorem C19_stats_shape :
+  SK_STATSMIDDLEWARE_INIT =
+  ["self.reset()"] /\
+  SK_STATSMIDDLEWARE_RESET =
+  ["self.route_hits = defaultdict(lambda: defaultdict(RouteStatReservoir))";
+   "self.last_reset = datetime.datetime.utcnow()"] /\
+  SK_STATSMIDDLEWARE_REQUEST =
+  ["start_time = time.time()";
+   "try";
+   "  resp = next()";
+   "  resp_status = repr(getattr(resp, 'status_code', resp.__class__.__name__))";
+   "  resp_mime_type = (getattr(resp, 'content_type', None) or '').partition(';')[0]";
+   "except Exception as e";
+   "  resp_status = repr(getattr(e, 'code', e.__class__.__name__))";
+   "  resp_mime_type = getattr(e, 'content_type', '').partition(';')[0]";
+   "  raise";
+   "finally";
+   "  end_time = time.time()";
+   "  duration = end_time - start_time";
+   "  hit = Hit(start_time, request.path, _route.pattern, resp_status, duration, resp_mime_type)";
+   "  self.route_hits[_route][resp_status].add(hit)";
+   "return resp"] /\
+  SK_ROUTESTATRESERVOIR_INIT =
+  ["self.last_hit = None";
+   "self.total_duration = 0.0";
+   "super(RouteStatReservoir, self).__init__()"] /\
+  SK_ROUTESTATRESERVOIR_ADD =
+  ["super(RouteStatReservoir, self).add(hit)";
+   "self.last_hit = hit.start_time";
+   "self.total_duration += hit.duration"] /\
+  SK_GET_ROUTE_STATS =
+  ["ret = {}";
+   "for (status, hits) in rt_hits.items()";
+   "  ret[status] = cur = {}";
+   "  durs = [round(h.duration * 1000, 2) for h in hits]";
+   "  stats = Stats(durs, use_copy=False)";
+   "  desc_dict = stats.describe(quantiles=[0.25, 0.5, 0.75, 0.95, 0.99], format='dict')";
+   "  desc_dict['count'] = hits.total_count";
+   "  desc_dict['last_hit'] = datetime.datetime.fromtimestamp(hits.last_hit).isoformat()";
+   "  desc_dict['total_duration'] = round(hits.total_duration * 1000, 2)";
+   "  cur.update(desc_dict)";
+   "return ret"] /\
+  SK_GET_STATS_DICT =
+  ["stats_mw = _get_stats_mw(_application)";
+   "rt_hits = stats_mw.route_hits";
+   "utcnow = datetime.datetime.utcnow().isoformat()";
+   "return {'route_stats': dict([(rt.pattern, _get_route_stats(rh)) for rt, rh in rt_hits.items() if rh]), 'start_time_utc': stats_mw.last_reset.isoformat(), 'cur_time_utc': utcnow}"] /\
+  SK_GET_AND_RESET_STATS_DICT =
+  ["ret = get_stats_dict(_application)";
+   "stats_mw = _get_stats_mw(_application)";
+   "stats_mw.reset()";
+   "ret['reset'] = True";
+   "return ret"].
+Proof. repeat split; reflexivity. Qed.
+Print Assumptions C19_stats_shape.
